@@ -200,8 +200,12 @@ def run_e1(harness, model, case_texts, jobs=16, tag='e1'):
             f.write('\n'.join(chunks[i]) + '\n')
         h = sh(f'{harness} {cf}')
         raw = h.stdout
-        d = subprocess.run([driver, model], input=raw, capture_output=True, text=True)
-        return raw, d.stdout, h.stderr[-500:] + d.stderr[-500:]
+        try:
+            d = subprocess.run([driver, model], input=raw, capture_output=True, text=True, timeout=3600)
+            return raw, d.stdout, h.stderr[-500:] + d.stderr[-500:]
+        except subprocess.TimeoutExpired:
+            # no verdict lines: every case of the chunk is reported as `no-output` (a tie), never as a pass
+            return raw, '', h.stderr[-500:] + ' model driver did not finish within the wall-clock limit of the check'
 
     with ThreadPoolExecutor(max_workers=nchunks) as ex:
         outs = list(ex.map(one, range(nchunks)))
